@@ -254,7 +254,7 @@ def listings(pm: ProgramModel, ctx: Ctx, it0: Interp, fmc: Any) -> None:
     nested_calls: list[int] = []
     for ds in shapes:
         p, rels = mk_parent_context(ds, log, pname="root")
-        fm = AObj("FeatureModel", root=p, ctcs=[])
+        fm = _MB(pm).model(p, [])
         # induction hypothesis: for a child c the recursive call returns the summary token L(c)
         state = {"top": True}
         it = Interp(pm)
@@ -282,7 +282,7 @@ def listings(pm: ProgramModel, ctx: Ctx, it0: Interp, fmc: Any) -> None:
         it2 = Interp(pm)
         sub = mk_relation(D(1, 1, 2), rels[0]._f["children"][0], log, prefix="g")
         allrels = list(rels) + [sub]
-        it2.native[gr.qual] = lambda self_, feature=None, _a=allrels: list(_a)
+        it2.native[gr.qual] = it2.signature_stub(gr, lambda self_, feature=None, _a=allrels: list(_a))
         try:
             gotf = it2.call(gf, [fm])
         except AbsRaise as exc:
@@ -292,7 +292,7 @@ def listings(pm: ProgramModel, ctx: Ctx, it0: Interp, fmc: Any) -> None:
             bad_f.append(f"root with relations {[str(x) for x in ds]}: got {_show(gotf)}")
     # root-only model
     lone = mk_feature("root", None)
-    fm = AObj("FeatureModel", root=lone, ctcs=[])
+    fm = _MB(pm).model(lone, [])
     it3 = Interp(pm)
     try:
         if it3.call(gr, [fm]) != []:
@@ -328,7 +328,7 @@ def listings(pm: ProgramModel, ctx: Ctx, it0: Interp, fmc: Any) -> None:
         raise AnalysisError(rule, "anchor vanished: FeatureModel.get_feature_by_name")
     feats = [mk_feature(n) for n in ("A", "a", "AB", "B")]
     it4 = Interp(pm)
-    it4.native[gf.qual] = lambda self_: list(feats)
+    it4.native[gf.qual] = it4.signature_stub(gf, lambda self_, *r: list(feats))
     badn = []
     for f in feats:
         try:
@@ -350,9 +350,9 @@ def listings(pm: ProgramModel, ctx: Ctx, it0: Interp, fmc: Any) -> None:
 
 def _whole_listing(pm: ProgramModel, gr: FuncInfo) -> list[str]:
     from ..model import ModelBuilder, rich_model
-    from .c16 import TREES, build_tree
+    from .c16 import tree_models
     mb = ModelBuilder(pm)
-    models = {k: mb.model(build_tree(mb, spec), []) for k, spec in TREES.items()}
+    models = tree_models(mb)
     models["rich"] = rich_model(mb)
     bad = []
     for name, m in models.items():
@@ -388,6 +388,17 @@ def _same_listing(got: Any, exp: list[Any]) -> bool:
 
 def _show(v: Any) -> str:
     return repr(v)[:160]
+
+
+_MB_CACHE: dict[int, Any] = {}
+
+
+def _MB(pm: ProgramModel) -> Any:
+    """Model builder: FeatureModel objects are made by the class's own __init__ (so whatever fields it sets up exist)."""
+    from ..model import ModelBuilder
+    if id(pm) not in _MB_CACHE:
+        _MB_CACHE[id(pm)] = ModelBuilder(pm)
+    return _MB_CACHE[id(pm)]
 
 
 # ---- R3 ---------------------------------------------------------------------------------------
@@ -436,8 +447,10 @@ def filters(pm: ProgramModel, ctx: Ctx, it: Interp, fmc: Any) -> None:
             raise AnalysisError(rule, f"anchor vanished: FeatureModel.{mname}")
         flt = as_filter(fi)
         if flt is None:
-            raise AnalysisError(rule, f"{fi.qual} is not in a recognised uniform-filter shape",
-                                loc(fi.unit.path, fi.node))
+            # not a comprehension over the base listing: decided by evaluation on the abstract model below
+            ctx.unverified(rule, f"shape:{mname}", loc(fi.unit.path, fi.node),
+                           "not in the uniform-filter shape; decided by evaluation (C03-FILTER eval:*)")
+            continue
         base, var, pred = flt
         n_sites += 1
         base_ok = _is_self_call(base, "get_features")
@@ -449,7 +462,7 @@ def filters(pm: ProgramModel, ctx: Ctx, it: Interp, fmc: Any) -> None:
             if klass not in cls:
                 continue
             try:
-                got = it.truth(it.eval(pred, {var: f, "self": AObj("FeatureModel")}, fi)) \
+                got = it.truth(it.eval(pred, {var: f, "self": _MB(pm).model(None, [])}, fi)) \
                     if pred is not None else True
             except AbsRaise as exc:
                 got = ("raise", exc.what)
@@ -467,8 +480,9 @@ def filters(pm: ProgramModel, ctx: Ctx, it: Interp, fmc: Any) -> None:
             raise AnalysisError(rule, f"anchor vanished: Constraint.{pname}")
         flt = as_filter(fi)
         if flt is None:
-            raise AnalysisError(rule, f"{fi.qual} is not in a recognised uniform-filter shape",
-                                loc(fi.unit.path, fi.node))
+            ctx.unverified(rule, f"shape:{mname}", loc(fi.unit.path, fi.node),
+                           "not in the uniform-filter shape; decided by evaluation (C03-FILTER eval:*)")
+            continue
         base, var, pred = flt
         n_sites += 1
         base_ok = _is_self_call(base, "get_constraints") or \
@@ -482,13 +496,15 @@ def filters(pm: ProgramModel, ctx: Ctx, it: Interp, fmc: Any) -> None:
                   f"{mname} filters by Constraint.{pname}",
                   bad=f"{mname} filters by `{src(pred) if pred is not None else 'nothing'}`, "
                       f"expected the predicate {pname} of the listed element")
-    ctx.floor(rule, "listing sites", n_sites, 13)
+    ctx.analysed[f"{rule}:listing sites in filter shape"] = n_sites
+    filters_eval(pm, ctx, fmc)
+    fresh_after_edit(pm, ctx, fmc)
     # get_constraints returns the constraint list
     gc = pm.method(fmc, "get_constraints")
     if gc is None:
         raise AnalysisError(rule, "anchor vanished: FeatureModel.get_constraints")
     lst = [AObj("Constraint", name="c1"), AObj("Constraint", name="c2")]
-    fm = AObj("FeatureModel", root=None, ctcs=lst)
+    fm = _MB(pm).model(None, lst)
     try:
         got = Interp(pm).call(gc, [fm])
     except AbsRaise:
@@ -507,3 +523,184 @@ def _is_self_call(e: ast.AST, name: str) -> bool:
 def _is_method_call_on(e: ast.AST, var: str, name: str) -> bool:
     return (isinstance(e, ast.Call) and isinstance(e.func, ast.Attribute) and e.func.attr == name
             and isinstance(e.func.value, ast.Name) and e.func.value.id == var and not e.args)
+
+
+def filters_eval(pm: ProgramModel, ctx: Ctx, fmc: Any) -> None:
+    """Listings decided by evaluation, whatever their shape: on an abstract model holding a feature in every
+    class of parent context and of every type, and a constraint of every class, each listing equals the base
+    listing (get_features / get_constraints, evaluated from source) filtered by the definition of its class
+    (features) or by the Constraint predicate it is named after (evaluated from source), in the same order."""
+    from ..model import ModelBuilder, rich_model
+    rule = "C03-FILTER"
+    mb = ModelBuilder(pm)
+    ft = pm.enum_members(pm.cls("FeatureType"))
+    root = mb.feature("R")
+    owner: dict[int, D] = {}
+    for i, d in enumerate(REP):
+        p = mb.feature(f"P{i}")
+        mb.relation(root, [p], 0, 1)
+        owner[id(p)] = D(0, 1, 1)
+        kids = [mb.feature(f"p{i}c{j}") for j in range(d.n)]
+        mb.relation(p, kids, d.min, d.max)
+        for k in kids:
+            owner[id(k)] = d
+    two = mb.feature("Two")                  # a parent with two groups of different kinds
+    mb.relation(root, [two], 1, 1)
+    owner[id(two)] = D(1, 1, 1)
+    for j, d in enumerate((D(1, 1, 2), D(1, 3, 3))):
+        kids = [mb.feature(f"two{j}c{k}") for k in range(d.n)]
+        mb.relation(two, kids, d.min, d.max)
+        for k in kids:
+            owner[id(k)] = d
+    for k, v in ft.items():
+        f = mb.feature(f"T{k}", ftype=EnumVal("FeatureType", k, v))
+        mb.relation(root, [f], 0, 1)
+        owner[id(f)] = D(0, 1, 1)
+    donor = rich_model(mb)
+    nn, o_ = mb.node, mb.op
+    ctcs = [mb.constraint("req", nn(o_("REQUIRES"), nn("P0"), nn("P1"))),
+            mb.constraint("exc", nn(o_("EXCLUDES"), nn("P0"), nn("P2"))),
+            mb.constraint("imp", nn(o_("IMPLIES"), nn("P1"), nn("P2"))),
+            mb.constraint("nimp", nn(o_("IMPLIES"), nn("P1"), nn(o_("NOT"), nn("P3")))),
+            mb.constraint("or", nn(o_("OR"), nn(o_("NOT"), nn("P1")), nn(o_("NOT"), nn("P3")))),
+            mb.constraint("pseudo", nn(o_("IMPLIES"), nn("P1"), nn(o_("AND"), nn("P2"), nn("P3")))),
+            mb.constraint("strict", nn(o_("OR"), nn("P1"), nn(o_("OR"), nn("P2"), nn("P3")))),
+            mb.constraint("arith", nn(o_("GREATER"), nn(o_("ADD"), nn("TINTEGER"), nn(1)), nn(2))),
+            mb.constraint("agg", nn(o_("GREATER"), nn(o_("SUM"), nn("fee"), nn("P1")), nn(2)))]
+    del donor
+    fm = mb.model(root, ctcs)
+
+    def ev(fi: Any, args: list[Any]) -> Any:
+        try:
+            r = Interp(pm, max_depth=40).call(fi, args)
+            return list(r) if isinstance(r, (list, tuple)) or hasattr(r, "__next__") else ("value", r)
+        except AbsRaise as exc:
+            return ("raise", exc.what)
+    gf, gc = pm.method(fmc, "get_features"), pm.method(fmc, "get_constraints")
+    if gf is None or gc is None:
+        raise AnalysisError(rule, "anchor vanished: FeatureModel.get_features/get_constraints")
+    feats, cons_l = ev(gf, [fm]), ev(gc, [fm])
+    if not isinstance(feats, list) or not isinstance(cons_l, list):
+        ctx.violation(rule, "eval:base", loc(gf.unit.path, gf.node), f"base listings do not evaluate: {feats!r:.80} / {cons_l!r:.80}")
+        return
+
+    def klass_of(f: AObj, klass: str) -> bool:
+        d = owner.get(id(f))
+        ks = [kind(D(int(r._f["card_min"]), int(r._f["card_max"]), len(r._f["children"]))) for r in f._f["relations"]]
+        t = f._f["feature_type"].name
+        return {"mandatory": d is not None and kind(d) == "mandatory", "optional": d is not None and kind(d) == "optional",
+                "alternative_group": "alternative" in ks, "or_group": "or" in ks, "boolean": t == "BOOLEAN",
+                "numerical": t in ("INTEGER", "REAL"), "string": t == "STRING"}[klass]
+    n = 0
+    for mname, klass in FEATURE_LISTINGS.items():
+        fi = pm.method(fmc, mname)
+        if fi is None:
+            raise AnalysisError(rule, f"anchor vanished: FeatureModel.{mname}")
+        got = ev(fi, [fm])
+        want = [f for f in feats if klass_of(f, klass)]
+        ok = isinstance(got, list) and len(got) == len(want) and all(a is b for a, b in zip(got, want))
+        n += 1
+        ctx.check(ok, rule, f"eval:{mname}", loc(fi.unit.path, fi.node),
+                  f"{mname} = features of class '{klass}' in listing order ({len(want)} of {len(feats)})",
+                  bad=f"{mname} gives {[x._f['name'] if isinstance(x, AObj) else x for x in got][:8] if isinstance(got, list) else got}, "
+                      f"the features of class '{klass}' are {[x._f['name'] for x in want][:8]}")
+    cons = pm.cls("Constraint")
+    for mname, pname in CTC_LISTINGS.items():
+        fi, pred = pm.method(fmc, mname), pm.method(cons, pname)
+        if fi is None or pred is None:
+            raise AnalysisError(rule, f"anchor vanished: FeatureModel.{mname} / Constraint.{pname}")
+        got = ev(fi, [fm])
+        marks = [ev(pred, [c]) for c in cons_l]
+        want = [c for c, mk in zip(cons_l, marks) if mk == ("value", True)]
+        ok = isinstance(got, list) and len(got) == len(want) and all(a is b for a, b in zip(got, want)) \
+            and all(isinstance(mk, tuple) and mk[0] == "value" for mk in marks)
+        n += 1
+        ctx.check(ok, rule, f"eval:{mname}", loc(fi.unit.path, fi.node),
+                  f"{mname} = constraints satisfying Constraint.{pname}, in order ({len(want)} of {len(cons_l)})",
+                  bad=f"{mname} gives {[c._f['name'] for c in got] if isinstance(got, list) else got}, Constraint.{pname} holds for "
+                      f"{[c._f['name'] for c in want]}")
+    ctx.floor(rule, "listings evaluated", n, 16)
+
+
+def fresh_after_edit(pm: ProgramModel, ctx: Ctx, fmc: Any) -> None:
+    """A model is a mutable tree: every query answers for the tree as it is NOW. Each query is evaluated, the tree
+    is edited in place (sub-tree detached / a feature replaced by a new object of the same name / a child added /
+    the root replaced), and the query is evaluated again on the same object in the same process; the second
+    answer must be the one a fresh process gives for the edited tree."""
+    from ..absint import reset_global_state
+    from ..model import ModelBuilder
+    rule = "C03-FRESH"
+    queries = sorted(n for c in pm.mro(fmc) if not c.unit.env for n, m in c.methods.items()
+                     if n.startswith("get_") and len(m.params) == 1 and not m.is_static())
+    ctx.floor(rule, "parameterless queries", len(queries), 15)
+    gbn = pm.method(fmc, "get_feature_by_name")
+
+    def build() -> tuple[Any, AObj, dict[str, Any]]:
+        mb = ModelBuilder(pm)
+        F = mb.feature
+        root, a, b, c = F("R"), F("A"), F("B"), F("C")
+        a1, a2, b1, c1 = F("A1"), F("A2"), F("B1"), F("C1")
+        mb.relation(root, [a], 1, 1)
+        rb = mb.relation(root, [b], 0, 1)
+        mb.relation(root, [c], 0, 1)
+        ra = mb.relation(a, [a1, a2], 1, 1)
+        mb.relation(b, [b1], 1, 1)
+        mb.relation(c, [c1], 0, 1)
+        n, o = mb.node, mb.op
+        fm = mb.model(root, [mb.constraint("k", n(o("REQUIRES"), n("A1"), n("B")))])
+        return mb, fm, {"root": root, "a": a, "b": b, "c": c, "a2": a2, "rb": rb, "ra": ra}
+
+    def edits(mb: Any, fm: AObj, h: dict[str, Any]) -> dict[str, Any]:
+        def detach() -> None:
+            h["root"]._f["relations"].remove(h["rb"])
+
+        def replace() -> None:
+            new = mb.feature("A2", parent=h["a"], is_abstract=True)
+            kids = h["ra"]._f["children"]
+            kids[kids.index(h["a2"])] = new
+
+        def add() -> None:
+            mb.relation(h["c"], [mb.feature("C2")], 1, 1)
+
+        def new_root() -> None:
+            h["c"]._f["parent"] = None
+            fm._f["root"] = h["c"]
+        return {"sub-tree-detached": detach, "feature-replaced-by-same-name": replace, "child-added": add,
+                "root-replaced": new_root}
+
+    def observe(it: Interp, fm: AObj, names: list[str]) -> dict[str, Any]:
+        out: dict[str, Any] = {}
+        for q in queries:
+            try:
+                v = it.call(pm.method(fmc, q), [fm])
+                out[q] = [id(x) for x in v] if isinstance(v, (list, tuple)) else (id(v) if isinstance(v, AObj) else v)
+            except AbsRaise as exc:
+                out[q] = ("raise", exc.what.split(" at ")[0])
+        if gbn is not None:
+            for nm in names:
+                try:
+                    v = it.call(gbn, [fm, nm])
+                    out[f"get_feature_by_name({nm!r})"] = id(v) if isinstance(v, AObj) else v
+                except AbsRaise as exc:
+                    out[f"get_feature_by_name({nm!r})"] = ("raise", exc.what.split(" at ")[0])
+        return out
+    names = ["R", "A", "B", "C", "A1", "A2", "B1", "C1", "C2", "missing"]
+    for ename in ("sub-tree-detached", "feature-replaced-by-same-name", "child-added", "root-replaced"):
+        reset_global_state()
+        mb, fm, h = build()
+        it = Interp(pm, max_depth=40)
+        observe(it, fm, names)                 # first use: whatever the model remembers is now warm
+        try:
+            edits(mb, fm, h)[ename]()
+        except ValueError:
+            raise AnalysisError(rule, "edit could not be applied to the abstract tree")
+        after = observe(it, fm, names)
+        reset_global_state()
+        # the reference: the same (edited) tree seen by a FeatureModel object that was never queried before
+        fresh_fm = ModelBuilder(pm).model(fm._f["root"], list(fm._f["ctcs"]))
+        fresh = observe(Interp(pm, max_depth=40), fresh_fm, names)
+        diff = sorted(k for k in after if after[k] != fresh.get(k))
+        ctx.check(not diff, rule, f"after-edit:{ename}", loc(fmc.unit.path, fmc.node),
+                  f"{len(after)} queries answer for the edited tree ({ename})",
+                  bad=f"after the edit '{ename}' these queries still answer for the tree as it was: {diff[:4]}")
+    reset_global_state()
